@@ -206,7 +206,25 @@ def check_family(res, r, k, lines, pend):
         for t in true_x:
             found = any(math.hypot(p[0] - t[0], p[1] - t[1]) < tol for p in xpts)
             if not found and filter_passes(fam, o0, t) and not any(math.hypot(p[0] - t[0], p[1] - t[1]) < tol for p in opts):
-                bad.append(("missed-x", "X-point at (%.4f, %.4f) (psi monotonic from the axis) not returned" % (t[0], t[1])))
+                # why: the scan only starts a Newton search from nodes that are strict 8-neighbour minima of Bp^2 and abandons it
+                # 3 cell diagonals away; in a shallow valley of Bp^2 between two critical points there may be no such node near one of them
+                from scipy import interpolate
+
+                fs = interpolate.RectBivariateSpline(R1, Z1, psi)
+                B2 = (fs(Rg, Zg, dx=1, grid=False) ** 2 + fs(Rg, Zg, dy=1, grid=False) ** 2) / Rg ** 2
+                rad = 3.0 * math.hypot(dR, dZ)
+                near = False
+                for i in range(2, nx - 2):
+                    for j in range(2, ny - 2):
+                        if math.hypot(R1[i] - t[0], Z1[j] - t[1]) < rad and all(
+                                B2[i, j] < B2[i + a, j + b] for a in (-1, 0, 1) for b in (-1, 0, 1) if (a, b) != (0, 0)):
+                            near = True
+                if near:
+                    bad.append(("missed-x", "X-point at (%.4f, %.4f) (psi monotonic from the axis) not returned" % (t[0], t[1])))
+                else:
+                    bad.append(("missed-x:no-node-minimum-of-Bp2-within-search-radius",
+                                "X-point at (%.4f, %.4f) (psi monotonic from the axis) not returned: no grid node within 3 cell diagonals of it is a strict "
+                                "8-neighbour minimum of Bp^2, so the scan never starts a search that can reach it" % (t[0], t[1])))
         # model correspondence on the returned lists: dedup keeps them, sort orders reproduce them
         h = vlib.f2hex
         if len(xpts) > 1:
